@@ -14,8 +14,9 @@ DRIVER = 'drv_c12'
 DRIVER_ROOT = 'Drv.C12'
 GEN = ['Args']
 THEOREMS = [
-    'C12.validate_spelling_irrelevant', 'C12.validate_refines', 'C12.cmpEq_refines', 'C12.body_refines',
-    'C12.libH_refines_lib', 'C12.spelling_irrelevant', 'C12.roundNumber_refines', 'C12.unfixed_arraySet_not_refines',
+    'C12.libH_refines_lib', 'C12.spelling_irrelevant', 'C12.validate_spelling_irrelevant', 'C12.numcheck_spelling_irrelevant',
+    'C12.validate_refines', 'C12.cmpEq_refines', 'C12.body_refines', 'C12.roundNumber_refines', 'C12.opMul_refines', 'C12.opPow_refines',
+    'C12.unfixed_arraySet_not_refines', 'C12.opMulUnfixed_not_refines',
 ]
 ASSUMPTIONS = [
     'Python int-vs-float mixed comparison and + - / % on integral values |n| < 1e15 are exact on the values (DESIGN 6); for the library '
